@@ -185,7 +185,7 @@ pub fn property() -> Property {
     tape!("det4-f64", d, 224, 20_000, 400_000, det4::<f64>);
     tape!("det4-f32", d, 224, 20_000, 400_000, det4::<f32>);
     let g = "Mat4::inverted/invert on matrices with det != 0: equals adjugate/det, M*inv = inv*M = I (reference product and vek's own product), both layouts";
-    tape!("inverse-general-rat", g, 64, 40_000, 1_500_000, inverse_general::<Rat>);
+    tape!("inverse-general-rat", g, 64, 30_000, 1_500_000, inverse_general::<Rat>);
     tape!("inverse-general-f64", g, 160, 30_000, 600_000, inverse_general::<f64>);
     let r = "inverted_affine_transform_no_scale (+ in-place) on rotation+translation matrices: two-sided inverse, equal to inverted() and to the scale-aware affine inverse";
     tape!("inverse-rigid-rat", r, 32, 36_000, 1_500_000, inverse_rigid::<Rat>);
@@ -228,8 +228,11 @@ pub fn property() -> Property {
             "rustc and the proptest runner/shrinker are trusted",
             "vkit::refmath: Leibniz determinant and adjugate inverse on plain arrays are the oracles; in the regime checks they are evaluated in exact rational arithmetic on the unscaled base matrix also for the float domains (the float input equals the rational base exactly where its entries are dyadic, and within 2 roundings per entry for rotation entries a/n)",
             "float domains: matrices with |det| >= 0.5 only, tolerance k*eps*scale with scale derived from the magnitudes of M and inv(M)",
-            "regime checks, floats: multiplying by a power of two is exact, so the comparison is made after scaling the result back to the base level; general inverse: |error| <= 256 eps (m^3/|det|)(1 + m |inv|) (a-priori bound of a cofactor evaluation with m = max |entry|; the same bound is used for the agreement of inverted() with the fast inverses, where it becomes loose for large m); fast inverses: 512 eps relative to 1/|scale_i| per row (times |t| for the translation column); determinants: 128 eps * sum over permutations of prod |a_i,p(i)| evaluated on the scaled matrix. The entry-wise scaled tolerance assumes an inverse algorithm that commutes with power-of-two row/column scaling (any division-free cofactor/block evaluation, and elimination with pivots chosen inside a column); uniform scaling of all entries needs no such assumption",
-            "exponent ranges are bounded so that every product of four scaled entries, the 24-term sums and the reciprocal of the determinant stay inside the normal range (f32 |k| <= 20, f64 <= 200, Rat <= 16 so that i128 does not overflow; translations alone down to 2^-56 in Rat); beyond that every correct implementation over/underflows and nothing is asserted. In Rat the general inverse is not called on T*R*S matrices whose exponents sum to more than 56 (i128 range); the fast inverse still is",
+            "regime checks, floats: multiplying by a power of two is exact, so the comparison is made after scaling the result back to the base level; fast inverses: 512 eps relative to 1/|scale_i| per row (times |t| for the translation column); determinants: 128 eps * sum over permutations of prod |a_i,p(i)| evaluated on the scaled matrix. The entry-wise scaled tolerance assumes an inverse algorithm that commutes with power-of-two row/column scaling (any division-free cofactor/block evaluation, and elimination with pivots chosen inside a column); uniform scaling of all entries needs no such assumption",
+            "exponent ranges are bounded so that every product of four scaled entries, the 24-term sums and the reciprocal of the determinant stay inside the normal range (uniform and block scalings: f32 |k| <= 20, f64 <= 200, Rat <= 16 so that i128 does not overflow; translations alone down to 2^-56 in Rat); beyond that every correct implementation over/underflows and nothing is asserted. In Rat the general inverse is not called on T*R*S matrices whose exponents sum to more than 56 (i128 range); the fast inverse still is",
+            "mixed magnitudes inside one matrix (one row / one column / the translation / one element scaled by 2^k, one line 2^k and another 2^-l): the exponent is drawn up to 2^124 (f32) / 2^1000 (f64) / 2^40 (Rat, and for a single element, whose oracle is the rational inverse of the modified base) and then reduced (x -> 3x/4) until every product of 1..4 non-zero entries from distinct rows and columns, the determinant, its reciprocal and every entry of the result lie within 2^+-118 (f32) / 2^+-1010 (f64) / 2^+-100 (Rat): exactly the products a Leibniz, cofactor or 2x2-block evaluation forms (partial products of terms ending in a structural zero included), so nothing is asserted where such an evaluation over/underflows. vek's own M * inv(M) and det(AB) are only formed where their terms stay in that window. Float matrices whose determinant is below 256 eps * (sum of the absolute Leibniz terms) are discarded: there any evaluation may return det = 0",
+            "general inverse on structured families, entry-wise: |d inv_ij| <= 64 eps ((perm|minor_ji| + |inv_ij| perm|M|)/|det| + |inv_ij|) at the base level (a-priori bound of a signed-monomial evaluation with constant ~10; structural zeros drop out, so the linear part of an affine matrix never sees the size of its translation)",
+            "float-rounded rotations (*-rounded): the rotation is computed in f64 (sin/cos, Rodrigues, via a unit quaternion) and rounded to the domain; the reference S^-1 R^T [I | -t] comes from the f64 rotation, the two-sided residual is evaluated in doubled precision (Dot2) on the matrix exactly as stored and must be <= 16 eps (64 eps in the f64 domain, whose rotations are themselves only orthogonal to ~12 eps) * {3 | 3 m_j/m_i | 6|t| | 4|t|/m_i}, the size of the terms of that entry; a rotation block off by less than ~50 eps (angle below 2^-17 in f32) is therefore not distinguished from rounding",
             "affine fast inverse: the documented domain is |column|^2 > T::epsilon() (the epsilon substitution branch); per-axis scales are kept at s^2 >= 1.75 epsilon (|s| >= 2^-11 in f32, 2^-25 in f64 and Rat, whose epsilon is 2^-52) and <= 2^21 (f32) / 2^41 (f64) / 2^31 (Rat); the substitution branch itself (negligibly small scales) is outside the property and is not exercised",
         ],
         checks,
